@@ -116,6 +116,29 @@ pub fn run(ctx: &mut Ctx) {
             }
         }
     }
+    // ---- (a') sort stress: long arrays mixing integers with strings (also strings that spell numbers);
+    // a comparator that is not a total order makes the standard library's sort panic on some of them ----
+    {
+        let mut r = crate::rng::Rng::new(0x50_57_C02);
+        for j in 0..40usize {
+            let len = 24 + j;
+            let arr: Vec<Value> = (0..len)
+                .map(|_| match r.below(11) {
+                    k @ 0..=5 => Value::scalar(k as i64),
+                    6 => Value::scalar("a"),
+                    7 => Value::scalar("b"),
+                    8 => Value::scalar("c"),
+                    9 => Value::scalar("0"),
+                    _ => Value::scalar("3"),
+                })
+                .collect();
+            let input = Value::Array(arr);
+            for name in ["sort", "sort_natural", "uniq"] {
+                let obs = apply(&lang, name, &input, &[]);
+                ctx.emit(filter_case("c02f", "f0:stress", name, &input, &[], &obs));
+            }
+        }
+    }
     // jekyll's `sort` has the stdlib filter's name: a language of its own, oracle only
     {
         let mut jek = liquid_core::parser::Language::empty();
